@@ -330,6 +330,13 @@ func (t *thread) quiesceWait() {
 			}
 		}
 		if !any {
+			// quiescence is a harness-level synchronisation point: everything the
+			// other threads did so far happens-before what the harness does next
+			for _, u := range r.threads {
+				if u != t {
+					t.vc.join(u.vc)
+				}
+			}
 			return
 		}
 		t.quiesce = true
